@@ -95,7 +95,7 @@ def analyse_writers(ctx, f, roles):
             ctx.check(sorted(want, key=repr) == got, key + ":lock-step",
                       "%s changes %s but XORs %s into the hash; the keys required for that state change are %s"
                       % (w, sorted(state), [show_key(k) for k in got], [show_key(k) for k in want]), loc(body), sample=sample)
-    ctx.floor("writer paths", n_paths, 14)
+    ctx.floor("writer paths", n_paths, 8)          # four writers, each with at least its two cases
     return features
 
 
